@@ -16,6 +16,8 @@ CLAIMS = {
  "C05": ("model_checking", "5/C05", "Declarative promote/keep-order property C05_Step model-checked; replay compares forward order, reverse order, peek_lru/peek_mru and Debug order after every step; trace validation on long histories with reallocation anywhere."),
  "C06": ("model_checking", "5/C06", "Object conservation C06_Step (before+args = after + dropped + handed + leaked, pairwise disjoint) model-checked; replay/trace compare the identity (unique tokens) of every dropped, returned and stored object per step; registry reports double drops and end-of-life leaks."),
  "C07": ("model_checking", "5/C07", "WellFormed/SlotStable structural predicates evaluated by TLC on the hook output of every recorded step (links symmetric, nodes = occupied buckets, iterated entry = looked-up entry = list node, mirror traversals); replay compares the same facets after every model transition."),
+ "C08": ("exploration", "5/C08", "spec/MemSize.tla transcribes the size algebra; TLC enumerates every type term of depth <= 2 (660 terms over 33 constructors, trait bounds respected) plus a depth-3 sample and fixed tuple/array terms; generated Rust probes log the abstract structure of generated values; TLC checks mem = value + heap, heap = HS(structure) compositionally, the four bulk helpers over 7 iterator shapes = element-wise sums, and 10^6-element runs on a 2 MiB stack terminate."),
+ "C09": ("exploration", "5/C09", "Same generated probes with random builder histories (with_capacity/push/extend/reserve/truncate/shrink at every nesting level); a counting global allocator measures the bytes each value holds; TLC checks the spec's allocation model Held(v) against the allocator, heap_size = allocator bytes for the exact types and the two-sided bound for HashMap/HashSet."),
  "C10": ("model_checking", "5/C10", "Classification/atomicity property C10_Step model-checked on all (state, key, size) combinations incl. simultaneous failure conditions; replay compares variant, numeric fields, identity of the returned pair and the untouched state; trace validation on random states."),
  "C11": ("model_checking", "5/C11", "C11_Step model-checked for shrink/equal/grow-fits/grow-evicts/overflow at every position; replay compares result forwarding, closure-ran flag, error fields, identity and post-state."),
  "C13": ("model_checking", "5/C13", "C13_Step/C13_Virgin/C13_GrowthBound model-checked with hashbrown's capacity arithmetic transcribed; replay compares capacity and bucket count exactly after every edge incl. overflow and injected allocator refusal; traces reach tombstone-heavy tables."),
@@ -27,6 +29,11 @@ CLAIMS = {
  "C19": ("model_checking", "5/C19", "C19_Step (read operations are stuttering steps) model-checked; replay/trace additionally require the structural fingerprint (node addresses, links, recorded sizes, seal, table) to be identical before and after every shared-reference call."),
  "C20": ("model_checking", "5/C20", "Hash-count upper bound HashBound model-checked against the constructive bound; replay/trace compare the measured number of Hash::hash calls of every operation with the bound (upper bound only)."),
 }
+
+MS_NOTE = ("Trusted: TLC, spec/MemSize.tla (HS / Held written from the property text), the generic structure readers "
+           "in memsize/src/probe.rs (no size arithmetic), the counting allocator; type terms to depth 2 exhaustively, "
+           "deeper nestings sampled; poisoned locks and usize overflow excluded.")
+
 
 def main():
     checks = []
@@ -40,8 +47,10 @@ def main():
             "replay_cmd_template": "python3 tools/check.py replay {path}",
             "engine": "tlc-model-based",
             "level_claimed": {"category": cat, "text": text, "design_ref": "DESIGN.md section " + ref},
-            "level_note": CORE_NOTE,
-            "technique": "TLA+ specification + TLC model checking; spec->impl replay of every TLC transition; impl->spec TLC trace validation",
+            "level_note": MS_NOTE if pid in ("C08", "C09") else CORE_NOTE,
+            "technique": ("TLA+ size algebra as oracle and enumerator (TLC); generated Rust probes; TLC validation of probe records"
+                          if pid in ("C08", "C09") else
+                          "TLA+ specification + TLC model checking; spec->impl replay of every TLC transition; impl->spec TLC trace validation"),
         })
     props = [json.loads(l)["id"] for l in open(os.path.join(ROOT, "properties.jsonl"))]
     na = [{"property_id": p, "reason": NA.get(p, "stage not built yet (work in progress)")}
